@@ -59,8 +59,14 @@ Qed.
 (* ------------------------------------------------------------------------------------------ *)
 (* big-endian bytes                                                                            *)
 
+Lemma be_fixed_S len z : be_fixed (S len) z = be_fixed len (z / 256) ++ [n2b (Z.to_N (z mod 256))].
+Proof.
+  cbn [be_fixed]. rewrite Z.shiftr_div_pow2 by lia. change 255 with (Z.ones 8). rewrite Z.land_ones by lia.
+  reflexivity.
+Qed.
+
 Lemma be_fixed_length len z : length (be_fixed len z) = len.
-Proof. revert z. induction len as [|l IH]; intros z; cbn [be_fixed]; [reflexivity|]. rewrite app_length, IH. simpl. lia. Qed.
+Proof. revert z. induction len as [|l IH]; intros z; [reflexivity|]. rewrite be_fixed_S, app_length, IH. simpl. lia. Qed.
 
 Lemma of_be_app a b : of_be (a ++ b) = of_be a * 256 ^ Z.of_nat (length b) + of_be b.
 Proof.
@@ -74,7 +80,7 @@ Lemma of_be_be_fixed len z : 0 <= z < 256 ^ Z.of_nat len -> of_be (be_fixed len 
 Proof.
   revert z. induction len as [|l IH]; intros z Hz.
   - simpl in *. unfold of_be. simpl. lia.
-  - cbn [be_fixed]. rewrite of_be_app. cbn [length].
+  - rewrite be_fixed_S. rewrite of_be_app. cbn [length].
     rewrite Nat2Z.inj_succ, Z.pow_succ_r in Hz by lia.
     rewrite IH by (split; [apply Z.div_pos; lia|apply Z.div_lt_upper_bound; lia]).
     unfold of_be. cbn [fold_left]. rewrite b2n_n2b.
@@ -101,7 +107,7 @@ Qed.
 Lemma be_fixed_of_be l : be_fixed (length l) (of_be l) = l.
 Proof.
   induction l as [|x l IH] using rev_ind; [reflexivity|].
-  rewrite app_length. cbn [length]. rewrite Nat.add_1_r. cbn [be_fixed].
+  rewrite app_length. cbn [length]. rewrite Nat.add_1_r. rewrite be_fixed_S.
   rewrite of_be_app. cbn [length]. change (Z.of_nat 1) with 1. rewrite Z.pow_1_r.
   unfold of_be at 2 4. cbn [fold_left]. rewrite Z.add_0_l.
   pose proof (b2n_lt x).
@@ -647,7 +653,7 @@ Section SecpTheorems.
     assert (Lr : length rb = 32%nat) by apply be_fixed_length.
     assert (Ls : length sb = 32%nat) by apply be_fixed_length.
     assert (V1 : be_fixed 1 (sV sg) = [n2b (Z.to_N (sV sg))]).
-    { cbn [be_fixed app]. rewrite Z.mod_small by assumption. reflexivity. }
+    { rewrite be_fixed_S. cbn [be_fixed app]. rewrite Z.mod_small by assumption. reflexivity. }
     eexists. split; [reflexivity|]. split; [rewrite !app_length, Lr, Ls; reflexivity|].
     split; [|rewrite V1; reflexivity].
     unfold DecodeCompactRSV. rewrite !app_length, Lr, Ls. cbn [length Nat.add Nat.eqb negb].
@@ -742,7 +748,7 @@ Lemma be_fixed_as_map len z :
   be_fixed len z = map (fun i => n2b (Z.to_N ((z / 256 ^ Z.of_nat (len - 1 - i)) mod 256))) (seq 0 len).
 Proof.
   revert z. induction len as [|l IH]; intros z; [reflexivity|].
-  cbn [be_fixed]. rewrite IH. rewrite seq_S, map_app. cbn [map Nat.add]. f_equal.
+  rewrite be_fixed_S. rewrite IH. rewrite seq_S, map_app. cbn [map Nat.add]. f_equal.
   - apply map_ext_in. intros i Hi. apply in_seq in Hi. f_equal. f_equal.
     rewrite Z.div_div by lia. f_equal. f_equal.
     replace (S l - 1 - i)%nat with (S (l - 1 - i)) by lia. rewrite Nat2Z.inj_succ, Z.pow_succ_r by lia. reflexivity.
